@@ -148,7 +148,9 @@ type vDocOpts struct {
 
 func vNonEmptyOStr(tag string) string {
 	s := vNondetOStr(tag)
-	vAssume(s != "")
+	if vParam("free", 0) == 0 {
+		vAssume(s != "") // normal form; in free form (C19) a string may be empty
+	}
 	return s
 }
 
@@ -222,6 +224,11 @@ func vBuildDoc(kind string, depth int, tag string, o vDocOpts) vJ {
 		return vBuildPaths(depth, tag, o)
 	case "responses":
 		return vBuildResponses(depth, tag, o)
+	}
+	if kind == "schema" && depth == 0 && tag == "d.schema" && vParam("ref_children", 0) == 1 && vChoose(2, tag+".isref") == 1 {
+		r := vJObj()
+		vJAdd(r, true, "$ref", vJStr("#/definitions/Pet"))
+		return r
 	}
 	doc := vJObj()
 	kws := vKindVocab(kind, tag)
@@ -302,6 +309,9 @@ func vBuildVal(kw vKW, depth int, tag string, o vDocOpts) vJ {
 	case shS:
 		return vJStr(vNonEmptyOStr(tag))
 	case shB:
+		if vParam("free", 0) == 1 {
+			return vJBool(vNondetBool(tag))
+		}
 		return vJBool(true) // normal form: an optional boolean that is present is true
 	case shN:
 		f := vNondetFloat64(tag)
@@ -310,6 +320,9 @@ func vBuildVal(kw vKW, depth int, tag string, o vDocOpts) vJ {
 	case shI:
 		return vJInt(vNondetInt64(tag))
 	case shSA:
+		if vParam("free", 0) == 1 {
+			return vStrArr(tag, vChoose(2, tag+".n")) // possibly empty
+		}
 		return vStrArr(tag, 1+vVar(o.sizes, tag+".n"))
 	case shAny:
 		return vAnyVal(tag, 1)
@@ -382,7 +395,7 @@ func vBuildVal(kw vKW, depth int, tag string, o vDocOpts) vJ {
 		return vJArr([]vJ{req, req2})
 	case shScopes:
 		m := vJObj()
-		vJAdd(m, true, "r"+vSymName(tag+".scope", 1), vJStr(vNonEmptyOStr(tag+".descr")))
+		vJAdd(m, vParam("free", 0) == 0 || vNondetBool(tag+".nonempty"), "r"+vSymName(tag+".scope", 1), vJStr(vNonEmptyOStr(tag+".descr")))
 		return m
 	case shExamples:
 		m := vJObj()
@@ -425,8 +438,8 @@ func vDigit(tag string) byte {
 func vBuildResponses(depth int, tag string, o vDocOpts) vJ {
 	doc := vJObj()
 	cd := vChildDepth(depth)
-	// required by the meta-schema: at least one response
-	vJAdd(doc, true, "default", vBuildDoc("response", cd, tag+".default", o))
+	// required by the meta-schema: at least one response (normal form: a default response)
+	vJAdd(doc, vParam("free", 0) == 0 || vNondetBool(tag+".default.present"), "default", vBuildDoc("response", cd, tag+".default", o))
 	if depth == 0 {
 		return doc
 	}
